@@ -59,7 +59,7 @@ struct Chain {
     cfg: ProxyCfg,
 }
 
-const HOSTS: [&str; 4] = ["a.test", "b.test", "sub.a.test", "192.0.2.10"];
+const HOSTS: [&str; 6] = ["a.test", "b.test", "sub.a.test", "192.0.2.10", "192.0.2.11", "[2001:db8::5]"];
 
 fn random_chain(rng: &mut Rng, ctx: &mut Ctx, allow_tunnel: bool) -> Chain {
     let n = rng.range(1, 4);
@@ -93,7 +93,7 @@ fn random_chain(rng: &mut Rng, ctx: &mut Ctx, allow_tunnel: bool) -> Chain {
         }
     }
     for _ in 0..rng.range(0, 2) {
-        cfg.no_proxy.push(rng.pick(&["a.test", "b.test", "192.0.2.10", "sub.a.test", "test"]).to_string());
+        cfg.no_proxy.push(rng.pick(&["a.test", "b.test", "192.0.2.10", "192.0.2.11", "[2001:db8::5]", "sub.a.test", "test"]).to_string());
     }
     Chain { hops, statuses, cfg }
 }
